@@ -689,7 +689,14 @@ def gen_decode(fn):
     d_fl, d_si, d_cv = (is_none_default(body[i], n) for i, n in enumerate(("flatten", "simple", "convert")))
     if d_fl is None or d_si is None or d_cv is None or u(d_fl) != "False" or u(d_si) != "False":
         raise Unsupported("decode: option defaults")
-    if u(d_cv) != "lambda t, v: bytes(v)":
+    def default_conv(e):
+        """`lambda <a>, <b>: bytes(<b>)` under any two parameter names"""
+        if not (isinstance(e, ast.Lambda) and len(e.args.args) == 2 and not (e.args.vararg or e.args.kwarg or e.args.kwonlyargs
+                or e.args.posonlyargs or e.args.defaults)):
+            return False
+        a, b = (p.arg for p in e.args.args)
+        return a != b and b != "bytes" and a != "bytes" and u(e.body) == f"bytes({b})"
+    if not default_conv(d_cv):
         raise Unsupported(f"decode: default conversion `{u(d_cv)}`")
     if not (isinstance(body[3], (ast.AnnAssign, ast.Assign)) and u(body[3].value) == "{}" and u(body[3].target if isinstance(body[3], ast.AnnAssign) else body[3].targets[0]) == "dec"):
         raise Unsupported("decode: `dec = {}`")
@@ -815,6 +822,9 @@ def check_module(tree):
         raise Unsupported(f"tlv: module-level statement `{u(n)[:60]}`")
     if any(v is None for v in fns.values()):
         raise Unsupported("tlv: an @overload stub is the last definition of its name")
+    # further module-level functions are not read: a call of one from the four translated functions is a name the
+    # translator does not know and is refused there
+    fns = {k: v for k, v in fns.items() if k in ("_decode", "_encode", "decode", "encode")}
     if sorted(fns) != ["_decode", "_encode", "decode", "encode"]:
         raise Unsupported(f"tlv: functions {sorted(fns)} (expected _decode, _encode, decode, encode)")
     if sorted(classes) != ["DecodeError", "EncodeError"]:
